@@ -151,10 +151,12 @@ def run_property(prop, rules, tier, seed, level_text, assumptions):
     import resource
     import signal
     budget = int(os.environ.get("VERIF_RULE_SECONDS") or (900 if tier == "quick" else 3600))
+    old_limit = None
     try:
         soft, hard = resource.getrlimit(resource.RLIMIT_AS)
         cap = int(os.environ.get("VERIF_RULE_GB") or 24) * 2 ** 30
         if soft == resource.RLIM_INFINITY or soft > cap:
+            old_limit = (soft, hard)
             resource.setrlimit(resource.RLIMIT_AS, (cap, hard))
     except (ValueError, OSError):
         pass
@@ -196,6 +198,11 @@ def run_property(prop, rules, tier, seed, level_text, assumptions):
             results.extend(res)
         else:
             results.append(res)
+    if old_limit is not None:
+        try:
+            resource.setrlimit(resource.RLIMIT_AS, old_limit)      # the tools the thorough tier starts afterwards are not under the budget
+        except (ValueError, OSError):
+            pass
     if errors:
         known0 = {k["key"] for k in load_known().get("findings", []) if k.get("status") == "known"}
         if not any(v.fullkey(prop) not in known0 for res in results for v in res.violations):
